@@ -64,7 +64,7 @@ def join_decision(fa, fb):
     return "t" if b.alias is not None else "f"
 
 
-def universe(objs, tid, render=True, factories=None):
+def universe(objs, tid, render=True, factories=None, carriers=()):
     n = len(objs)
     joinalias = [[join_decision(factories[i], factories[j]) if factories else "n/a" for j in range(n)] for i in range(n)]
     eq = [[bool(objs[i] == objs[j]) for j in range(n)] for i in range(n)]
@@ -82,6 +82,18 @@ def universe(objs, tid, render=True, factories=None):
                 except Exception:  # noqa
                     pass
             str(o)
+        # statements that merely CONTAIN objects of the universe (as a source, an operand) are rendered too: rendering the container
+        # must not change the equality / hash of what it contains either
+        for c in carriers:
+            for ctx in ctxs.values():
+                try:
+                    c.get_sql(ctx)
+                except Exception:  # noqa
+                    pass
+            try:
+                str(c)
+            except Exception:  # noqa
+                pass
     eq2 = [[bool(objs[i] == objs[j]) for j in range(n)] for i in range(n)]
     h2 = [safe_hash(o) for o in objs]
     return {"tid": tid, "kind": "universe", "eq": eq, "ne": ne, "h": h, "inset": inset, "indict": indict, "inlist": inlist, "eq2": eq2, "h2": h2, "joinalias": joinalias}
@@ -102,9 +114,15 @@ def build_tree(t, tables):
 
         return ValueWrapper(int(t["n"]))
     if t["k"] == "call":
+        from pypika_tortoise import analytics as an
+        from pypika_tortoise import functions as fn
         from pypika_tortoise.terms import Function
 
-        return Function(t["f"], *[build_tree(x, tables) for x in t["args"]])
+        args = [build_tree(x, tables) for x in t["args"]]
+        special = {"AN:MEDIAN": lambda: an.Median(*args), "AN:SUM": lambda: an.Sum(*args), "AN:LAG": lambda: an.Lag(args[0], 1, args[1]),
+                   "AGG:COUNT": lambda: fn.Count(*args), "FN:UPPER": lambda: fn.Upper(*args), "FN:CAST": lambda: fn.Cast(args[0], "INT"),
+                   "FN:COALESCE": lambda: fn.Coalesce(*args), "FN:NULLIF": lambda: fn.NullIf(*args)}
+        return special[t["f"]]() if t["f"] in special else Function(t["f"], *args)
     if t["k"] == "in":
         return build_tree(t["a"], tables).isin([build_tree(x, tables) for x in t["items"]])
     if t["k"] == "between":
@@ -114,6 +132,26 @@ def build_tree(t, tables):
 
         return Case().when(build_tree(t["w"], tables), build_tree(t["t"], tables)).else_(build_tree(t["e"], tables))
     raise core.MachineryError("tree kind " + t["k"])
+
+
+def carriers_of(objs):
+    """statements that hold the builders / aliased queries of a universe the ways a user can put them there: from_(), join(), IN, select list,
+    and replace_table(table, subquery), which puts a subquery into FROM without going through from_()"""
+    import pypika_tortoise as P
+
+    t, w = P.Table("t"), P.Table("w")
+    out = []
+    for o in objs:
+        if not callable(getattr(type(o), "union", None)) and type(o).__name__ != "AliasedQuery":
+            continue
+        for mk in (lambda: P.Query.from_(w).select(w.a).where(w.a.isin(o)), lambda: P.Query.from_(w).select(w.a, o),
+                   lambda: P.Query.from_(t).select(t.a).where(t.b == 1).replace_table(t, o),
+                   lambda: P.Query.from_(w).join(t).on(w.a == t.a).select(w.a).replace_table(t, o)):
+            try:
+                out.append(mk())
+            except Exception:  # noqa
+                pass
+    return out
 
 
 def other_universes():
@@ -170,7 +208,7 @@ def run(tier: str) -> int:
     events.append(universe([build_variant(v) for v in mixed], len(events), factories=[(lambda v=v: build_variant(v)) for v in mixed]))
     meta.append(("Table", [shape(v) for v in mixed]))
     for label, objs, shapes in other_universes():
-        events.append(universe(objs, len(events)))
+        events.append(universe(objs, len(events), carriers=carriers_of(objs)))
         meta.append((label, shapes))
     import pypika_tortoise as P
 
